@@ -25,9 +25,17 @@ CRASH_CLASSES = [Crash] + [type("Crash" + b.__name__, (Crash, b), {})
                                      AssertionError, RuntimeError)]
 
 
-def crash(message):
+DISTINCT_CRASH_CLASSES = []
+for _c in CRASH_CLASSES:
+    if _c not in DISTINCT_CRASH_CLASSES:
+        DISTINCT_CRASH_CLASSES.append(_c)
+
+
+def crash(message, forced=None):
     from ..core import h64
 
+    if forced is not None:
+        return forced(message)
     return CRASH_CLASSES[int(h64(message)[:6], 16) % len(CRASH_CLASSES)](message)
 
 
@@ -281,7 +289,7 @@ class Binding(object):
                 raise ResolverError(out[1], path=["upstream", 3, "field"], extensions=out[2])
             raise ResolverError(out[1], extensions=out[2])
         if out[0] == "crash":
-            raise crash(out[1])
+            raise crash(out[1], getattr(self, "crash_class", None))
         return self.to_python(out[1])
 
     def resolver_for(self, typename, fieldname):
